@@ -23,3 +23,151 @@ package model
 //@ lemma validpart_no_separators(kind int, s string, j int)
 //@   requires validpart(kind, s) && 0 <= j && j < len(s)
 //@   ensures s[j] != 47 && s[j] != 92 && s[j] != 0 && s[0] != 46
+
+// ===== C13: names accepted by the validators cannot leave the model store =====================
+//
+// Trusted library contracts used by the C13 packages (types/model, server/internal/internal/names,
+// server). They live here because _extern.go is shared; every property that loads the names or
+// server C13 block must also load this file (props "contract_packages": ["types/model"]).
+// Strings are compared by identity of opaque ids in govc; "" is the id `sempty`.
+
+// Engine gap (reported): the zero value of a string is encoded as id 0, the literal "" as
+// `sempty`; nothing links them. Both denote the empty string, and the empty string is unique.
+//@ axiom "" == 0
+//@ axiom forall s string :: len(s) == 0 ==> s == ""
+
+//@ spec func ssplitn(s string, sep string) int
+//@ spec func ssplitpart(s string, sep string, k int) string
+//@ spec func sfoldeq(s string, t string) bool
+//@ spec func fpjoin2(a string, b string) string
+//@ spec func fpjoin3(a string, b string, c string) string
+//@ spec func fpjoin4(a string, b string, c string, d string) string
+
+//@ extern func strings.LastIndex
+//@   pure
+//@   ensures result == slastindex(s, substr)
+//@   ensures result == -1 || (0 <= result && result + len(substr) <= len(s))
+//@   ensures result >= 0 <==> scontains(s, substr)
+//@   ensures len(substr) == 1 && result >= 0 ==> s[result] == substr[0]
+//@   ensures len(substr) == 1 ==> forall j int :: result < j && j < len(s) ==> s[j] != substr[0]
+
+//@ extern func strings.Cut
+//@   pure
+//@   ensures result.2 <==> scontains(s, sep)
+//@   ensures !result.2 ==> result.0 == s && result.1 == ""
+//@   ensures result.2 ==> 0 <= sindex(s, sep) && sindex(s, sep) + len(sep) <= len(s)
+//@   ensures result.2 ==> result.0 == s[0:sindex(s, sep)] && result.1 == s[sindex(s, sep)+len(sep):len(s)]
+//@   ensures result.2 ==> len(result.0) == sindex(s, sep) && len(result.1) == len(s) - sindex(s, sep) - len(sep)
+
+//@ extern func strings.Split
+//@   modifies nothing
+//@   ensures len(result) == ssplitn(s, sep)
+//@   ensures len(sep) >= 1 ==> len(result) >= 1
+//@   ensures forall k int :: 0 <= k && k < len(result) ==> result[k] == ssplitpart(s, sep, k)
+
+//@ extern func strings.EqualFold
+//@   pure
+//@   ensures result <==> sfoldeq(s, t)
+
+//@ extern func cmp.Or
+//@   pure
+//@   ensures len(vals) == 2 ==> result == ite(vals[0] != "", vals[0], vals[1])
+
+// filepath.Join is an uninterpreted function of its elements (see props/C13.json assumptions
+// for what is assumed about it).
+//@ extern func path/filepath.Join
+//@   pure
+//@   ensures len(elem) == 2 ==> result == fpjoin2(elem[0], elem[1])
+//@   ensures len(elem) == 3 ==> result == fpjoin3(elem[0], elem[1], elem[2])
+//@   ensures len(elem) == 4 ==> result == fpjoin4(elem[0], elem[1], elem[2], elem[3])
+
+// ---- the validator over a whole name ----
+
+//@ spec func fqname(h string, n string, m string, t string) bool = validpart(0, h) && validpart(1, n) && validpart(2, m) && validpart(3, t)
+
+//@ func (Name).IsFullyQualified
+//@   pure reads none
+//@   ensures result <==> fqname(n.Host, n.Namespace, n.Model, n.Tag)
+//@   loop 1 invariant -1 <= rangeindex && rangeindex <= 3
+//@   loop 1 invariant rangeindex >= 0 ==> validpart(0, n.Host)
+//@   loop 1 invariant rangeindex >= 1 ==> validpart(1, n.Namespace)
+//@   loop 1 invariant rangeindex >= 2 ==> validpart(2, n.Model)
+//@   loop 1 invariant rangeindex >= 3 ==> validpart(3, n.Tag)
+
+//@ func (Name).IsValid
+//@   pure reads none
+//@   ensures result <==> fqname(n.Host, n.Namespace, n.Model, n.Tag)
+
+//@ func IsValidNamespace
+//@   ensures result <==> validpart(1, s)
+
+// Filepath: the panic is unreachable for fully qualified names; the path is the join of
+// exactly the four validated parts.
+//@ func (Name).Filepath
+//@   requires fqname(n.Host, n.Namespace, n.Model, n.Tag)
+//@   ensures result == fpjoin4(n.Host, n.Namespace, n.Model, n.Tag)
+
+//@ func ParseNameFromFilepath
+//@   ensures (n.Host == "" && n.Namespace == "" && n.Model == "" && n.Tag == "") || fqname(n.Host, n.Namespace, n.Model, n.Tag)
+//@   ensures n.Host != "" ==> ssplitn(s, "/") == 4 && n.Host == ssplitpart(s, "/", 0) && n.Namespace == ssplitpart(s, "/", 1) && n.Model == ssplitpart(s, "/", 2) && n.Tag == ssplitpart(s, "/", 3)
+//@   ensures ssplitn(s, "/") == 4 && fqname(ssplitpart(s, "/", 0), ssplitpart(s, "/", 1), ssplitpart(s, "/", 2), ssplitpart(s, "/", 3)) ==> n.Host == ssplitpart(s, "/", 0)
+
+// ---- the parser: splitting at the last separator ----
+
+//@ func cutLast
+//@   pure reads none
+//@   ensures result.2 <==> slastindex(s, sep) >= 0
+//@   ensures !result.2 ==> result.0 == s && result.1 == ""
+//@   ensures result.2 ==> result.0 == s[0:slastindex(s, sep)] && result.1 == s[slastindex(s, sep)+len(sep):len(s)]
+//@   ensures result.2 ==> len(result.0) == slastindex(s, sep) && len(result.0) + len(sep) + len(result.1) == len(s)
+//@   ensures result.2 ==> forall j int :: 0 <= j && j < len(result.0) ==> result.0[j] == s[j]
+//@   ensures result.2 ==> forall j int :: 0 <= j && j < len(result.1) ==> result.1[j] == s[len(result.0) + len(sep) + j]
+//@   ensures result.2 && len(sep) == 1 ==> forall j int :: 0 <= j && j < len(result.1) ==> result.1[j] != sep[0]
+
+//@ func cutPromised
+//@   pure reads none
+//@   ensures result.2 <==> slastindex(s, sep) >= 0
+//@   ensures !result.2 ==> result.0 == s && result.1 == ""
+//@   ensures result.2 ==> result.0 == ite(s[0:slastindex(s, sep)] != "", s[0:slastindex(s, sep)], "!MISSING!")
+//@   ensures result.2 ==> result.1 == ite(s[slastindex(s, sep)+len(sep):len(s)] != "", s[slastindex(s, sep)+len(sep):len(s)], "!MISSING!")
+//@   ensures result.2 ==> result.0 != "" && result.1 != ""
+
+//@ func Merge
+//@   pure reads none
+//@   ensures result.Host == ite(a.Host != "", a.Host, b.Host)
+//@   ensures result.Namespace == ite(a.Namespace != "", a.Namespace, b.Namespace)
+//@   ensures result.Tag == ite(a.Tag != "", a.Tag, b.Tag)
+//@   ensures result.Model == a.Model
+
+//@ func (Name).EqualFold
+//@   pure reads none
+//@   ensures result <==> (sfoldeq(n.Host, o.Host) && sfoldeq(n.Namespace, o.Namespace) && sfoldeq(n.Model, o.Model) && sfoldeq(n.Tag, o.Tag))
+
+// ---- printing: strings.Builder as a ghost accumulator -------------------------------------
+// b.ghost_acc is an abstract token for the bytes written so far (0 for a fresh Builder),
+// bstr(token) the accumulated string, sbyte(c) the one-byte string c.
+//@ spec func bstr(acc int) string
+//@ spec func sbyte(c int) string
+//@ axiom bstr(0) == ""
+//@ axiom forall x string :: "" + x == x
+//@ axiom forall c int :: len(sbyte(c)) == 1 && sbyte(c)[0] == c
+
+//@ extern func strings.(*Builder).WriteString
+//@   modifies this.ghost_acc
+//@   ensures result.0 == len(s) && result.1 == nil
+//@   ensures bstr(this.ghost_acc) == bstr(old(this.ghost_acc)) + s
+//@ extern func strings.(*Builder).WriteByte
+//@   modifies this.ghost_acc
+//@   ensures result == nil
+//@   ensures bstr(this.ghost_acc) == bstr(old(this.ghost_acc)) + sbyte(c)
+//@ extern func strings.(*Builder).String
+//@   modifies nothing
+//@   ensures result == bstr(this.ghost_acc)
+
+//@ spec func namestr1(h string) string = ite(h != "", h + sbyte(47), "")
+//@ spec func namestr2(h string, n string) string = ite(n != "", namestr1(h) + n + sbyte(47), namestr1(h))
+//@ spec func namestr(h string, n string, m string, t string) string = ite(t != "", namestr2(h, n) + m + sbyte(58) + t, namestr2(h, n) + m)
+
+// String prints host/namespace/model:tag, leaving out empty host, namespace and tag.
+//@ func (Name).String
+//@   ensures result == namestr(n.Host, n.Namespace, n.Model, n.Tag)
